@@ -18,6 +18,8 @@ Local Arguments N.shiftr : simpl never.
 Local Arguments N.shiftl : simpl never.
 Local Arguments N.pow : simpl never.
 
+Ltac smallt := unfold small, LIM in *; repeat (first [rewrite app_length in * | progress (cbn [length] in * )]); lia.
+
 Lemma put1_emits s bl (bit : bool) : repr s bl -> small (bl ++ [bit]) ->
   emits (putBitsValue s (if bit then 1 else 0) 1) bl [bit].
 Proof.
@@ -32,8 +34,8 @@ Proof.
 Qed.
 
 (* ---------------------------------------------------------------- the common prologue *)
-Lemma size_prologue_in s bl n ext lb ub e :
-  repr s bl -> (0 <= lb <= ub)%Z -> (ub < 65536)%Z -> n <= Z.to_N ub -> small (bl ++ [false]) ->
+Lemma size_prologue_in s bl n (ext : bool) lb ub e :
+  repr s bl -> (0 <= lb <= ub)%Z -> (ub < 65536)%Z -> n <= Z.to_N ub -> small (bl ++ (if ext then [false] else [])) ->
   exists s', size_prologue s n ext (Some lb) (Some ub) e = Ok (s', lb, ub, (ub - lb + 1)%Z)
              /\ repr s' (bl ++ (if ext then [false] else [])).
 Proof.
@@ -152,19 +154,18 @@ Proof.
     2:{ cbn [andb negb] in Hx. destruct ext; [specialize (Hd7 eq_refl); lia|discriminate]. }
     cbn [andb negb] in Hx. rewrite andb_false_r in Hx.
     set (pre := if ext then [false] else @nil bool) in *.
-    assert (Hpre : length pre = if ext then 1%nat else O) by (unfold pre; destruct ext; reflexivity).
-    destruct (size_prologue_in s bl (len bytes) ext lb ub E_OCT_OVER_UB Hs Hlb ltac:(lia) ltac:(lia)) as (s1 & E1 & R1).
-    { unfold small, LIM in *. rewrite app_length in *. cbn [length]. destruct (Z.to_N lb =? Z.to_N ub); [|destruct (cwn _ _ _)]; cbn [xbind] in Hx; try discriminate;
-      destruct (_ && _) in Hx; try destruct (len bytes =? 0) in Hx; try destruct (Z.to_N ub <=? 2) in Hx; injection Hx as <-; rewrite !app_length in Hsm; fold pre in Hsm; destruct ext; cbn [length] in *; lia. }
-    fold pre in R1. rewrite E1. cbn [bind].
-    assert ((65535 <? ub)%Z = false) as -> by lia.
+    assert (HP : small (bl ++ pre) -> exists s1, size_prologue s (len bytes) ext (Some lb) (Some ub) E_OCT_OVER_UB = Ok (s1, lb, ub, (ub - lb + 1)%Z)
+                  /\ repr s1 (bl ++ pre)).
+    { intros Hp. apply size_prologue_in; auto; lia. }
+    assert ((65535 <? ub)%Z = false) as E65 by lia.
     destruct (Z.to_N lb =? Z.to_N ub) eqn:Efix.
     + (* fixed size: no length determinant *)
       cbn [xbind andb] in Hx. rewrite app_nil_r in Hx.
-      assert ((ub - lb + 1 =? 1)%Z = true) as -> by lia. rewrite u64z_small by lia.
-      assert (Hnn : len bytes = Z.to_N ub) by lia. rewrite Hnn. rewrite N.eqb_refl. cbn [negb].
+      assert (Hnn : len bytes = Z.to_N ub) by lia.
       assert (Z.to_N ub <=? 2 = negb (2 <? Z.to_N ub)) as Esm by lia. rewrite Esm in Hx.
-      destruct (2 <? Z.to_N ub) eqn:E2; cbn [negb] in Hx; injection Hx as <-.
+      destruct (2 <? Z.to_N ub) eqn:E2; cbn [negb] in Hx; injection Hx as <-;
+        (destruct HP as (s1 & E1 & R1); [apply small_prefix in Hsm; exact Hsm|]); rewrite E1; cbn [bind]; rewrite E65;
+        (assert ((ub - lb + 1 =? 1)%Z = true) as -> by lia); rewrite u64z_small by lia; rewrite Hnn, N.eqb_refl; cbn [negb]; rewrite E2.
       * eexists. split; [reflexivity|]. rewrite !app_assoc. rewrite <- app_length.
         apply repr_append_bytes; [apply repr_align; exact R1|apply (aligned_after bl pre)|exact Hb].
       * rewrite u64_small by (unfold TWO64; lia).
@@ -178,17 +179,17 @@ Proof.
       destruct (cwn (Z.to_N ub - Z.to_N lb + 1) (len bytes - Z.to_N lb) (length bl + length pre)) as [L| |] eqn:EL; cbn [xbind] in Hx; try discriminate.
       cbn [andb] in Hx.
       assert (Hb' : b = pre ++ L ++ (if len bytes =? 0 then [] else align (length ((bl ++ pre) ++ L)) ++ bits_of_bytes bytes)).
-      { rewrite !app_length. rewrite app_length in Hx. destruct (len bytes =? 0); injection Hx as <-; rewrite <- ?app_assoc, ?app_nil_r; reflexivity. }
-      subst b. assert ((ub - lb + 1 =? 1)%Z = false) as -> by lia.
-      rewrite app_assoc. destruct R1 as [R1a R1b]. pose proof (conj R1a R1b) as R1.
+      { rewrite !app_length. rewrite app_length in Hx. rewrite <- Nat.add_assoc. destruct (len bytes =? 0); injection Hx as <-; rewrite <- ?app_assoc, ?app_nil_r; reflexivity. }
+      subst b. clear Hx.
+      destruct HP as (s1 & E1 & R1); [apply small_prefix in Hsm; exact Hsm|]. rewrite E1. cbn [bind]. rewrite E65.
+      assert ((ub - lb + 1 =? 1)%Z = false) as -> by lia.
       assert (Hgoal : emits (oct_frag_loop (S (length bytes)) s1 bytes (ub - lb + 1) lb (sub64 (len bytes) (u64z lb)) 0) (bl ++ pre)
                  (L ++ (if len bytes =? 0 then [] else align (length ((bl ++ pre) ++ L)) ++ bits_of_bytes bytes))).
       { apply oct_frag_once; auto; try lia.
         replace (ub - lb + 1)%Z with (Z.of_N (Z.to_N ub - Z.to_N lb + 1)) by lia.
-          apply clen_emits; auto; try lia.
-          + rewrite app_length. exact EL.
-          + rewrite <- app_assoc. rewrite <- app_assoc in Hsm. apply small_prefix in Hsm. rewrite <- app_assoc in Hsm.
-            unfold small in *. rewrite !app_length in *. lia. }
+        apply clen_emits; auto; try lia.
+        - rewrite app_length. exact EL.
+        - rewrite app_assoc in Hsm. rewrite app_assoc in Hsm. apply small_app_l in Hsm. exact Hsm. }
       destruct Hgoal as (s2 & E2 & R2). exists s2. split; [exact E2|]. rewrite <- !app_assoc in *. exact R2.
   - (* above the root of an extensible size: length as an unconstrained length determinant *)
     assert (Hlbn : Z.to_N lb <=? len bytes = true) by lia. rewrite Hlbn in Hx. cbn [andb negb] in Hx. rewrite andb_true_r in Hx.
@@ -196,14 +197,14 @@ Proof.
     destruct (lendet (len bytes) (S (length bl))) as [L| |] eqn:EL; cbn [xbind] in Hx; try discriminate.
     rewrite andb_false_r in Hx. assert (len bytes =? 0 = false) as E0 by lia. rewrite E0 in Hx. injection Hx as <-.
     destruct (size_prologue_above s bl (len bytes) lb ub E_OCT_OVER_UB Hs Hlb ltac:(lia) ltac:(lia)) as (s1 & E1 & R1).
-    { apply small_prefix in Hsm. exact Hsm. }
+    { smallt. }
     rewrite E1. cbn [bind]. assert ((65535 <? ub)%Z = false) as -> by lia. cbn [Z.eqb].
     assert (Hgoal : emits (oct_frag_loop (S (length bytes)) s1 bytes (-1) 0 (sub64 (len bytes) (u64z 0)) 0) (bl ++ [true])
                (L ++ (if len bytes =? 0 then [] else align (length ((bl ++ [true]) ++ L)) ++ bits_of_bytes bytes))).
     { apply oct_frag_once; auto; try lia.
       change (Z.to_N 0) with 0. rewrite N.sub_0_r. apply lendet_emits; auto.
-        + rewrite app_length. cbn [length]. rewrite Nat.add_1_r. exact EL.
-        + cbn [app] in Hsm. rewrite <- app_assoc. cbn [app]. apply small_prefix in Hsm. rewrite <- app_assoc. exact Hsm. }
+      - rewrite app_length. cbn [length]. rewrite Nat.add_1_r. exact EL.
+      - smallt. }
     destruct Hgoal as (s2 & E2 & R2). exists s2. split; [exact E2|]. rewrite E0 in R2.
     rewrite <- !app_assoc in R2. cbn [app] in *. rewrite !app_length in *. cbn [length] in *.
     replace (length bl + 1 + length L)%nat with (length bl + S (length L))%nat in R2 by lia. exact R2.
